@@ -19,6 +19,11 @@ pub fn install_quiet_panic_hook() {
             "<non-string panic>".to_string()
         };
         let loc = info.location().map(|l| format!(" at {}:{}", l.file(), l.line())).unwrap_or_default();
+        // a panic that does not come from the subject is a machinery failure: make it visible
+        let from_subject = info.location().map(|l| l.file().contains("/repo/")).unwrap_or(false);
+        if !from_subject {
+            eprintln!("MACHINERY: panic outside the subject: {}{}", msg, loc);
+        }
         LAST_PANIC.with(|p| *p.borrow_mut() = format!("{}{}", msg, loc));
     }));
 }
